@@ -93,7 +93,9 @@ PathDirs(env) ==
 (* ---- vfs.config_dir(name) ----
    existsSet: the set of paths that exist on that filesystem (clean absolute character sequences). *)
 NoneR == [o |-> "none", v |-> <<>>]
-Holds(d, existsSet, name) == \E x \in existsSet : SamePath(x, Mash(d, name))
+\* "contains name on that filesystem": the filesystem resolves the spelling of the directory lexically (every vfs method cleans its
+\* argument), so a candidate spelled with "." / ".." holds the file when the cleaned path exists
+Holds(d, existsSet, name) == \E x \in existsSet : SamePath(x, Clean(Mash(d, name)))
 \* the search order: $XDG_CONFIG_HOME (user::config_dir) first, then $XDG_CONFIG_DIRS
 \* DECISION: when the config home cannot be determined (an error outcome of ConfigDir) the search has no first
 \* entry but still "searches ... then the $XDG_CONFIG_DIRS directories" (property: None only "when none does").
